@@ -145,7 +145,7 @@ class C19(object):
                         "how": rnd.choice(["update", "update", "update_partial", "attrs"]),
                         "workers": rnd.choice([1, 1, 2, 3])} for _ in range(rnd.randint(1, 3))]
         return {"entry": "run_iradon", "ncores": ncores, "ystep": ystep, "ny": ny, "full": full, "nang": nang, "ymin": ymin,
-                "zero_cols": rnd.choice(["none", "none", "halves", "random", "random", "one"]), "segments": rnd.choice([1, 2, 2, 3, 5]),
+                "zero_cols": rnd.choice(["none", "none", "halves", "random", "random", "one", "cancel"]), "segments": rnd.choice([1, 2, 2, 3, 5]),
                 "pbp_setmask": rnd.random() < 0.2, "interp_kind": rnd.choice([None, None, None, "cubic", "nearest"]),
                 "two_objects": rnd.random() < 0.5, "mask_layout": rnd.choice(["c", "c", "f", "t", "view"]),
                 "nonsquare": [rnd.randint(0, 9), rnd.randint(0, 9)],
@@ -357,6 +357,22 @@ class C19(object):
         dtyi = geo.dty_to_dtyi(dty, ystep, ymin)
         if viol is None and np.abs(geo.dtyi_to_dty(dtyi, ystep, ymin) - dty).max() > 0.5 * ystep * (1 + 1e-9):
             viol = V("dtyi-rounding", "dty_to_dtyi is not the nearest step")
+        # ... also for positions outside the scanned range (rows below the first one have negative indices)
+        dty_any = ymin + g.uniform(-40, 80, 12) * ystep
+        dtyi_any = geo.dty_to_dtyi(dty_any, ystep, ymin)
+        if viol is None and np.abs(geo.dtyi_to_dty(dtyi_any, ystep, ymin) - dty_any).max() > 0.5 * ystep * (1 + 1e-9):
+            kq = int(np.argmax(np.abs(geo.dtyi_to_dty(dtyi_any, ystep, ymin) - dty_any)))
+            viol = V("dtyi-rounding", "dty_to_dtyi(%.4f) = %d with ystep %g, ymin %.4f: not the nearest step (%.3f steps from the first row)" %
+                     (dty_any[kq], int(dtyi_any[kq]), ystep, ymin, (dty_any[kq] - ymin) / ystep))
+        if viol is None:
+            # the point-by-point copy of the in-beam relation: at the dty that brings the point into the beam the distance is zero
+            with contextlib.redirect_stdout(io.StringIO()):
+                from ImageD11.sinograms import point_by_point as pbp
+            so, co = np.sin(np.radians(omega)), np.cos(np.radians(omega))
+            idx, ydist = pbp.get_voxel_idx(float(y0), float(sx), float(sy), so, co, np.asarray(dty, float), float(ystep))
+            if np.abs(ydist).max() > 1e-9 * scale or len(idx) != len(omega):
+                viol = V("in-beam-dty-wrong", "point_by_point.get_voxel_idx: at the in-beam dty values the distance from the beam is up to "
+                                              "%g (y0 %.3f); %d of %d projections selected" % (float(np.abs(ydist).max()), y0, len(idx), len(omega)))
         # ---- sinogram of the point grain
         c = (dty - ymin) / ystep
         ii = np.arange(ny)[:, None]
@@ -475,6 +491,15 @@ class C19(object):
                 s2[:, g.random(sino.shape[1]) < 0.3] = 0
             elif zc == "one":
                 s2[:, int(g.integers(sino.shape[1]))] = 0
+            elif zc == "cancel":
+                # signed sinograms (a difference of two grains): every column of a*s1 + s2 sums to exactly zero without
+                # being empty
+                s1 = np.zeros_like(sino)
+                s2 = np.zeros_like(sino)
+                rows1 = g.integers(0, sino.shape[0], sino.shape[1])
+                rows2 = (rows1 + 1 + g.integers(0, sino.shape[0] - 1, sino.shape[1])) % sino.shape[0]
+                s1[rows1, np.arange(sino.shape[1])] = 1.0
+                s2[rows2, np.arange(sino.shape[1])] = -desc["lin_a"]
             meas["zero_cols"] = {zc: 1}
             a = desc["lin_a"]
             r1, _ = self.recon(s1, omega, pad, shift, 1, None, desc, simulate=False)
